@@ -326,3 +326,4 @@ def _gp_twin(tier):
 from pyvc.native import native_monitor  # noqa: E402
 
 EXTRA_CHECKS = [static_state_coverage, native_monitor("C16", "contracts.c16", "monitor_restore", "twin-continuation", "6 searcher cases x 8 snapshot positions, 4 schedulers x 3 dill positions, GP-FIFO searcher: 2 snapshot positions")]
+EXTRA_CHECKS = list(EXTRA_CHECKS) + [native_monitor("C16", "contracts.c16_native", "monitor_restore_gp", "restore-gp", "about 45 (thorough 340 x 2 seeds) random-phase scenarios of the GP searchers (restrict_configurations, duplicates, points_to_evaluate, failed trials, 1 or 3 running trials) with a snapshot at every event prefix, 9 scenarios with real model fits, 11 HyperbandScheduler(bayesopt) scenarios; state used as handed out, after pickle and after dill; restore into a freshly constructed object")]
